@@ -2400,6 +2400,39 @@ def comp_simdsib(prop, tier, comp, work):
     return out
 
 
+def comp_eqlen(prop, tier, comp, work):
+    """R-EQLEN (C18): in apply_isequal / apply_isclose (the comparison helpers behind the library's own expectations) every branch that
+    walks two sequences starts its verdict from the EQUALITY of their lengths: a local initialised from a comparison of len(left) with
+    len(right) is `len(left) == len(right)` in either order - never an ordering (>=, <=) that lets a longer operand pass as a prefix."""
+    t0 = time.time()
+    tu = os.path.join(work, "umb_eqlen.cpp")
+    open(tu, "w").write('#include "nmtools/utility/apply_isequal.hpp"\n#include "nmtools/utility/apply_isclose.hpp"\n')
+    rows, err, cmd = run_nmlint(tu, filters=["include/nmtools/utility/apply_is"])
+    out = dict(broken=[], units=1, functions=len(rows), cmd=cmd)
+    if err:
+        out["broken"].append(err); return out
+    findings, n, samples = [], 0, []
+    for r in rows:
+        if "fn" not in r:
+            continue
+        for f in r["facts"]:
+            if f["k"] != "local":
+                continue
+            e = f["b"].replace(" ", "")
+            m = re.fullmatch(r"\((?:nmtools::)?len\(\$(\w+)\)(==|!=|<=|>=|<|>)(?:nmtools::)?len\(\$(\w+)\)\)", e)
+            if not m or m.group(1) == m.group(3):
+                continue
+            n += 1
+            if m.group(2) != "==":
+                findings.append(finding("R-EQLEN", prop, r, "%s = %s" % (f["a"], f["b"]), "the verdict of an element-wise comparison starts from `%s` of the two lengths instead of their equality: an operand that is a proper prefix of the other compares equal (and the longer one may be read past the shorter)" % m.group(2), f.get("line")))
+            elif len(samples) < 2:
+                samples.append("R-EQLEN %s: %s = %s" % (r["fn"].split("::")[-1], f["a"], f["b"]))
+    if n == 0:
+        out["broken"].append("R-EQLEN: no length comparison found in apply_isequal / apply_isclose (anchor vanished)")
+    out.update(findings=findings, instances={"R-EQLEN": n}, evaluations=n, distinct_nontrivial=n - len(findings), samples=samples, wall_s=round(time.time() - t0, 2))
+    return out
+
+
 # --------------------------------------------------------------------------------------------
 # driver
 # --------------------------------------------------------------------------------------------
@@ -2440,4 +2473,4 @@ def comp_fwd_array(prop, tier, comp, work):
     return out
 
 
-RULES = {"R-FWD.array": comp_fwd_array, "R-FWD.functional": comp_fwd_functional, "R-UFUNC": comp_ufunc, "R-KSIB": comp_ksib, "R-SIMD": comp_simd, "R-CONSTBRANCH": comp_constbranch, "R-TRAITPROV": comp_traitprov, "R-MAYBE-DIV": comp_maybe_div, "R-OWN": comp_own, "R-EVAL": comp_eval, "R-EQSHAPE": comp_eqshape, "R-PAIR": comp_pair, "R-FOLD": comp_fold, "R-MEMCOPY": comp_memcopy, "R-AXISNORM": comp_axisnorm, "R-AXISNORM.simd": comp_axisnorm_simd, "R-UFWD.reduce": comp_ufwd_reduce, "R-PARAMUSE": comp_paramuse, "R-GETFN": comp_getfn, "R-MAYBE.broadcast": comp_maybe_bcast, "R-SIMDSIB": comp_simdsib}
+RULES = {"R-FWD.array": comp_fwd_array, "R-FWD.functional": comp_fwd_functional, "R-UFUNC": comp_ufunc, "R-KSIB": comp_ksib, "R-SIMD": comp_simd, "R-CONSTBRANCH": comp_constbranch, "R-TRAITPROV": comp_traitprov, "R-MAYBE-DIV": comp_maybe_div, "R-OWN": comp_own, "R-EVAL": comp_eval, "R-EQSHAPE": comp_eqshape, "R-PAIR": comp_pair, "R-FOLD": comp_fold, "R-MEMCOPY": comp_memcopy, "R-AXISNORM": comp_axisnorm, "R-AXISNORM.simd": comp_axisnorm_simd, "R-UFWD.reduce": comp_ufwd_reduce, "R-PARAMUSE": comp_paramuse, "R-GETFN": comp_getfn, "R-MAYBE.broadcast": comp_maybe_bcast, "R-SIMDSIB": comp_simdsib, "R-EQLEN": comp_eqlen}
